@@ -12,6 +12,7 @@ package ext
 //@   safety[C02]
 //@   ensures[C02] 0 <= result && result <= len(b) && result <= 9
 //@   ensures[!C02] result == ite(varintSize(mem(b), lo(b), hi(b)) < 0, 0, varintSize(mem(b), lo(b), hi(b)))
+//@   noalloc[C17]
 
 //@ func ReverseUint32
 //@   safety[C02]
@@ -20,6 +21,7 @@ package ext
 //@   ensures[!C02] len(b) > 0 && b[len(b)-1] == 255 ==> result1 == 0 - 1 && result0 == 0
 //@   ensures[!C02] (len(b) == 0 || b[len(b)-1] != 255) && n < 0 ==> result1 == 0 && result0 == 0
 //@   ensures[!C02] n >= 1 && n <= 5 ==> result1 == n && result0 == varintVal(mem(b), hi(b), n)
+//@   noalloc[C17]
 
 //@ func ReverseUint64
 //@   safety[C02]
@@ -27,6 +29,7 @@ package ext
 //@   ensures[C02] 0 <= result1 && result1 <= len(b) && result1 <= 9
 //@   ensures[!C02] n < 0 ==> result1 == 0 && result0 == 0
 //@   ensures[!C02] n >= 1 ==> result1 == n && result0 == varintVal(mem(b), hi(b), n)
+//@   noalloc[C17]
 
 //@ func ReverseInt32
 //@   safety[C02]
@@ -35,6 +38,7 @@ package ext
 //@   ensures[!C02] len(b) > 0 && b[len(b)-1] == 255 ==> result1 == 0 - 1 && result0 == 0
 //@   ensures[!C02] (len(b) == 0 || b[len(b)-1] != 255) && n < 0 ==> result1 == 0 && result0 == 0
 //@   ensures[!C02] n >= 1 && n <= 5 ==> result1 == n && result0 == unzigzag(varintVal(mem(b), hi(b), n))
+//@   noalloc[C17]
 
 //@ func ReverseInt64
 //@   safety[C02]
@@ -42,6 +46,7 @@ package ext
 //@   ensures[C02] 0 <= result1 && result1 <= len(b) && result1 <= 9
 //@   ensures[!C02] n < 0 ==> result1 == 0 && result0 == 0
 //@   ensures[!C02] n >= 1 ==> result1 == n && result0 == unzigzag(varintVal(mem(b), hi(b), n))
+//@   noalloc[C17]
 
 // ---- encoders: the n bytes ending at the end of b are the canonical varint; nothing else changes
 
@@ -51,6 +56,7 @@ package ext
 //@   modifies uint8 at b
 //@   ensures result == uvarintLen(v) && isUvarint(mem(b), hi(b) - result, result, v)
 //@   ensures forall j :: (j < hi(b) - result || j >= hi(b)) ==> mem(b)[j] == old(mem(b))[j]
+//@   noalloc[C17]
 
 //@ func PutReverseUint64
 //@   safety[C08]
@@ -58,6 +64,7 @@ package ext
 //@   modifies uint8 at b
 //@   ensures result == uvarintLen(v) && isUvarint(mem(b), hi(b) - result, result, v)
 //@   ensures forall j :: (j < hi(b) - result || j >= hi(b)) ==> mem(b)[j] == old(mem(b))[j]
+//@   noalloc[C17]
 
 //@ func PutReverseInt32
 //@   safety[C08]
@@ -65,6 +72,7 @@ package ext
 //@   modifies uint8 at buf
 //@   ensures result == uvarintLen(zigzag(x)) && isUvarint(mem(buf), hi(buf) - result, result, zigzag(x))
 //@   ensures forall j :: (j < hi(buf) - result || j >= hi(buf)) ==> mem(buf)[j] == old(mem(buf))[j]
+//@   noalloc[C17]
 
 //@ func PutReverseInt64
 //@   safety[C08]
@@ -72,3 +80,4 @@ package ext
 //@   modifies uint8 at buf
 //@   ensures result == uvarintLen(zigzag(x)) && isUvarint(mem(buf), hi(buf) - result, result, zigzag(x))
 //@   ensures forall j :: (j < hi(buf) - result || j >= hi(buf)) ==> mem(buf)[j] == old(mem(buf))[j]
+//@   noalloc[C17]
